@@ -76,6 +76,8 @@ func expandToken(tx plugintypes.TransactionState, token macroToken) string {
 		}
 	case collection.Single:
 		return col.Get()
+	case nil:
+		// the variable has no collection in this transaction (e.g. JSON): treated as a key that is not found
 	default:
 		if c := col.FindAll(); len(c) > 0 {
 			return c[0].Value()
